@@ -146,14 +146,50 @@ def gen_arg(rng, rep):
 def stage_stringify(rep, rng, n):
     from bfg9000.backends.compdb.writer import CompDB
     from bfg9000.shell.list import shell_list
+    import os
+    from bfg9000 import safe_str
+    from bfg9000.path import Path, Root, BasePath
     uw, us = gen.uni_tables()
     calls, impl = [], []
-    for i in range(n):
-        src, bld = rng.choice(DIRS)
+    # the root directories themselves (the paths with the empty suffix: an include directory that IS the source or the build
+    # directory, as for a header generated at the top of the build directory) under every directory pair, alone and inside
+    # a flag, next to ordinary members of the same root
+    corner = []
+    for src, bld in DIRS:
+        for root in (Root.srcdir, Root.builddir):
+            top = Path('', root)
+            corner.append((src, bld, [top]))
+            corner.append((src, bld, [safe_str.jbos('-I', top), '-c', Path('x.c', root), safe_str.jbos('-I', Path('sub', root)), top]))
+        corner.append((src, bld, [Path('/', Root.absolute), safe_str.jbos('-I', Path('/', Root.absolute))]))
+    bad_law = 0
+    for i in range(n + len(corner)):
+        if i < len(corner):
+            src, bld, args = corner[i]
+            only_plain = True
+            rep.count('compdb:root directory itself as an argument')
+        else:
+            src, bld = rng.choice(DIRS)
+            only_plain = rng.random() < 0.4
+            args = [gen_arg(rng, rep) for _ in range(rng.randint(0, 5))]
         env = make_env(src, bld, 'make')
         db = CompDB(env)
-        only_plain = rng.random() < 0.4
-        args = [gen_arg(rng, rep) for _ in range(rng.randint(0, 5))]
+        # ---- no model involved: what compile_commands.json calls a path is a non-empty name that, read in the entry's
+        # directory (the build directory), denotes the file the path object denotes; for a member of the build directory
+        # it is the relative name the Make and Ninja writers use (a single dot for the build directory itself)
+        for pth in [b for a in args for b in (a.bits if isinstance(a, safe_str.jbos) else [a]) if isinstance(b, BasePath)]:
+            got = db._stringify(pth, env.builddir)
+            absolute = pth.string(env.base_dirs)
+            want_rel = pth.realize({Root.srcdir: None, Root.builddir: None}) if pth.root == Root.builddir else None
+            ok = isinstance(got, str) and got != '' and \
+                os.path.normpath(os.path.join(bld, got)) == os.path.normpath(absolute) and (want_rel is None or got == want_rel)
+            if not ok:
+                bad_law += 1
+                if bad_law <= 3:
+                    rep.fail('compile_commands.json names the path %s:%r as %r (source directory %r, build directory %r = the directory of the '
+                             'entry): the file is %r%s' % (pth.root.name, pth.suffix, got, src, bld, absolute,
+                                                         '' if want_rel is None else ', Make and Ninja name it %r' % want_rel),
+                             {'kind': 'compdb-path-name', 'root': pth.root.name, 'suffix': pth.suffix, 'compdb_string': got,
+                              'srcdir': src, 'builddir': bld, 'denotes': absolute, 'make_ninja_name': want_rel})
         if only_plain:
             from bfg9000 import safe_str
             args = [a for a in args if not isinstance(a, (safe_str.literal_types, safe_str.jbos)) or
